@@ -182,6 +182,55 @@ HIST_SERVERS = [((1024, 4096), P.STRICT, 'both', 'other'), ((4096,), P.STRICT, '
                 ((2048,), P.OPENSSH, 'sha256', 'openssh'), ((3072, 4096), P.OPENSSH, 'both', 'openssh'), ((), P.STRICT, 'sha1', 'openssh')]
 
 
+def _history_rating(o, fmt, alg, want, st, fam, detail):
+    if fmt == 'json':
+        e = next((x for x in o.get('kex', []) if x['algorithm'] == alg), None)
+        notes = [] if e is None else [(lv, t) for lv in ('fail', 'warn', 'info') for t in e.get('notes', {}).get(lv, [])]
+    else:
+        e = next((a for a in report.TextReport(o).algs['kex'] if a['name'] == alg), None)
+        notes = [] if e is None else e['notes']
+    size_lv = sorted(set(lv for lv, t in notes if re.search(r'using small \d+-bit modulus|2048-bit modulus only provides', t)))
+    want_lv = [rating(want)] if want is not None and rating(want) else []
+    stale = [t for _lv, t in notes for m in [re.search(r'using small (\d+)-bit modulus', t)] if m and want is not None and int(m.group(1)) != want]
+    if alg == SHA1 and want is None:
+        return          # the database's own standing note about sha1 group exchange
+    if size_lv != want_lv or stale:
+        st.violation('%s:size-rating-depends-on-other-targets:%s' % (fam, fmt), dict(detail, alg=alg, size=want, size_note_levels=size_lv, expected=want_lv, notes=[list(n) for n in notes][:6]))
+
+
+def work_history_crashed(chunk, st):
+    """the first target's audit ends with an error the tool does not expect once its probes are done (its connection-rate check is
+    rejected with 'no route to host'); the second target, audited by the same worker, is rated from its own measurements"""
+    import errno
+    for (i, j), fmt in chunk:
+        first, second = make_server(*HIST_SERVERS[i]), make_server(*HIST_SERVERS[j])
+        twin = make_server(*HIST_SERVERS[i])
+        pre = len(H.audit(twin, opts=['-n', '--skip-rate-test']).world.conns)
+        first.async_refuse = True
+        first.conn_behaviour = lambda k, pre=pre: 'normal' if k < pre else errno.EHOSTUNREACH
+        res, outs = H.audit_sequence([first, second], opts=['-n'] + (['-j'] if fmt == 'json' else []))
+        root = ('history-crashed', i, j, fmt)
+        st.execution(res.world, outcome=('history-crashed', fmt, res.status), root=root, nontrivial=root)
+        d = {'first_target': list(map(str, HIST_SERVERS[i])), 'server': list(map(str, HIST_SERVERS[j]))}
+        if outs is None or len(outs) != 2:
+            st.violation('history-crashed:output-shape', dict(d, stdout=res.stdout[-200:]))
+            continue
+        sub, style, offer, banner = HIST_SERVERS[j]
+        o = outs[1]
+        for alg in OFFERS[offer]:
+            want, _fb = expected_from_log(second, alg, banner)
+            if fmt == 'json':
+                got = next((x for x in o.get('kex', []) if x['algorithm'] == alg), {}).get('keysize') if isinstance(o, dict) else None
+            else:
+                e = next((a for a in report.TextReport(o).algs['kex'] if a['name'] == alg), None)
+                got = e['size'] if e else None
+            if got != want:
+                st.violation('history-crashed:size-depends-on-other-targets:%s' % fmt, dict(d, alg=alg, reported=got, expected=want))
+                continue
+            _history_rating(o, fmt, alg, want, st, 'history-crashed', d)
+    st.sample({'history_after_crashed_target': [list(map(str, HIST_SERVERS[chunk[0][0][0]])), list(map(str, HIST_SERVERS[chunk[0][0][1]]))]}, cap=6)
+
+
 def work_history(chunk, st):
     for idxs, fmt in chunk:
         specs = [HIST_SERVERS[i] for i in idxs]
@@ -203,6 +252,8 @@ def work_history(chunk, st):
                 if got != want:
                     st.violation('history:size-depends-on-other-targets:%s' % fmt, {'servers_in_run': [list(map(str, x)) for x in specs], 'server': list(map(str, sp)), 'alg': alg,
                                                                                    'reported': got, 'expected': want})
+                    continue
+                _history_rating(o, fmt, alg, want, st, 'history', {'servers_in_run': [list(map(str, x)) for x in specs], 'server': list(map(str, sp))})
     st.sample({'history_of_gex_servers': [list(map(str, HIST_SERVERS[i])) for i in chunk[0][0]]}, cap=14)
 
 
@@ -225,6 +276,7 @@ def run(tier, seed):
     if tier != 'quick':
         hist += [(k, 'json') for k in itertools.permutations(range(n), 3)]
     par.pmap(work_history, hist, stats=st, chunk=3)
+    par.pmap(work_history_crashed, [(k, f) for k in itertools.permutations(range(n), 2) for f in ('text', 'json')], stats=st, chunk=2)
     vcases = []
     for sub, style, offer, banner in H.pick(tasks, seed, 16 if tier == 'quick' else 80):
         vcases.append({'label': 'gex %s %s %s %s' % (sub, style, offer, banner), 'opts': ['-n'] + (['-j'] if len(vcases) % 2 else []),
